@@ -133,7 +133,7 @@ SPEC = {
     "lean_modules": ["RsslVerif.Thm.C03"],
     "theorems": [T + n for n in [
         "find_target_layer", "find_sound_partial", "find_sound_fails", "find_rejects_rvalue_to_lvalue", "find_keeps_const",
-        "elab_sound", "elabStmt_sound",
+        "elab_sound", "elabStmt_sound", "ids_in_range",
         "elab_rejects_assign_to_const", "elab_rejects_assign_to_rvalue", "elab_rejects_increment",
         "elab_rejects_call", "elab_rejects_arity", "elab_rejects_unconvertible", "elab_rejects_out_arg_rvalue",
         "elab_rejects_out_arg_const", "elab_rejects_return_type", "elab_rejects_return_void",
